@@ -8,6 +8,7 @@ import (
 	"math"
 	"net/netip"
 	"runtime/debug"
+	"sort"
 	"time"
 
 	"github.com/database64128/shadowsocks-go/conn"
@@ -35,6 +36,7 @@ const (
 	opForge          // the harness encoder builds a packet and presents it
 	opAdvance        // the clock moves by D
 	opSwitch         // (client side) the "current" genuine server session moves to the next one
+	opBurst          // the current genuine packer packs N packets and all of them are presented, locally reordered
 )
 
 // forged packet kinds
@@ -90,6 +92,33 @@ var advances = []time.Duration{
 	59 * time.Second, 60*time.Second - time.Nanosecond, 60 * time.Second, 60*time.Second + time.Nanosecond, 61 * time.Second, 90 * time.Second,
 }
 
+// gaps before a scripted server-session change that the one-minute rule accepts
+var changeGaps = []time.Duration{60 * time.Second, 61 * time.Second, 5 * time.Minute}
+
+// burstOrder is the presentation order of a burst of n packets: ascending with local jitter (most
+// packets move by at most two places, about one in eight is held back by several places).
+func burstOrder(n int, seed uint64) []int {
+	type kv struct{ key, idx int }
+	ks := make([]kv, n)
+	x := seed | 1
+	for i := range ks {
+		x ^= x >> 12
+		x ^= x << 25
+		x ^= x >> 27
+		h := x * 2685821657736338717 >> 40
+		ks[i] = kv{key: i*4 + int(h%10), idx: i}
+		if h>>8%8 == 0 {
+			ks[i].key += 24
+		}
+	}
+	sort.SliceStable(ks, func(a, b int) bool { return ks[a].key < ks[b].key })
+	out := make([]int, n)
+	for i, k := range ks {
+		out[i] = k.idx
+	}
+	return out
+}
+
 var tsOffsets = []int64{0, 0, 0, 1, -1, 15, -15, 29, -29, 30, -30} // -30 is already expired at creation
 var staleOffsets = []int64{31, -31, 32, -32, 60, -60, 3600, -3600, math.MaxInt64 / 2, math.MinInt64 / 2, -bubbleEpoch, -bubbleEpoch - 1}
 
@@ -128,7 +157,7 @@ func (c pcfg) sizeArg() uint64 {
 func drawPlan(rt *rapid.T, clientSide bool) []step {
 	attempts := 0
 	if clientSide {
-		attempts = rapid.SampledFrom([]int{0, 0, 1, 1, 2, 2, 3}).Draw(rt, "attempts")
+		attempts = rapid.SampledFrom([]int{0, 0, 1, 1, 2, 2, 3, 3}).Draw(rt, "attempts")
 	}
 	return drawPlanN(rt, clientSide, 90, attempts, rapid.IntRange(0, 2).Draw(rt, "tempo"))
 }
@@ -145,7 +174,13 @@ func drawPlanN(rt *rapid.T, clientSide bool, maxSteps, attempts, slow int) []ste
 		if seg == attempts {
 			break
 		}
-		plan = append(plan, step{Op: opAdvance, D: rapid.SampledFrom(advances[6:]).Draw(rt, "gap")})
+		// the gap before the change: mostly on the accepting side of the one-minute rule, so that a session
+		// often lives through two or three accepted changes
+		gap := rapid.SampledFrom(changeGaps).Draw(rt, "gap")
+		if rapid.IntRange(0, 4).Draw(rt, "gap-any") == 0 {
+			gap = rapid.SampledFrom(advances[6:]).Draw(rt, "gap2")
+		}
+		plan = append(plan, step{Op: opAdvance, D: gap})
 		if rapid.IntRange(0, 3).Draw(rt, "hear") > 0 {
 			plan = append(plan, step{Op: opPack, N: rapid.IntRange(1, 3).Draw(rt, "n"), Sess: -1})
 			for range rapid.IntRange(1, 3).Draw(rt, "k") {
@@ -154,6 +189,10 @@ func drawPlanN(rt *rapid.T, clientSide bool, maxSteps, attempts, slow int) []ste
 		}
 		plan = append(plan, step{Op: opSwitch}, step{Op: opPack, N: rapid.IntRange(1, 3).Draw(rt, "n"), Sess: -1},
 			step{Op: opDeliver, Span: rapid.IntRange(0, 1).Draw(rt, "span"), Pick: rapid.Uint64().Draw(rt, "pick")})
+		// several packets of the new server session (ids restart at 0,1,2,...), some out of order
+		if rapid.IntRange(0, 5).Draw(rt, "burst") > 0 {
+			plan = append(plan, step{Op: opBurst, N: rapid.IntRange(2, 40).Draw(rt, "burst-n"), Pick: rapid.Uint64().Draw(rt, "burst-seed")})
+		}
 	}
 	return plan
 }
@@ -161,11 +200,15 @@ func drawPlanN(rt *rapid.T, clientSide bool, maxSteps, attempts, slow int) []ste
 func drawStep(rt *rapid.T, clientSide bool, slow int) (s step) {
 	w := rapid.IntRange(0, 99).Draw(rt, "op")
 	switch {
+	case w < 3:
+		s.Op = opBurst
+		s.N = rapid.IntRange(2, 40).Draw(rt, "burst-n")
+		s.Pick = rapid.Uint64().Draw(rt, "burst-seed")
 	case w < 22:
 		s.Op = opPack
 		s.N = rapid.SampledFrom([]int{1, 1, 1, 2, 3, 5, 8, 20, 63, 64, 65, 70}).Draw(rt, "n")
 		if clientSide {
-			s.Sess = rapid.SampledFrom([]int{-1, -1, -1, -1, -1, -1, -1, -1, 0, 1, 2}).Draw(rt, "sess") // -1: current genuine session
+			s.Sess = rapid.SampledFrom([]int{-1, -1, -1, -1, -1, -1, -1, -1, 0, 1, 2, 3}).Draw(rt, "sess") // -1: current genuine session
 		}
 	case w < 62:
 		s.Op = opDeliver
@@ -183,8 +226,8 @@ func drawStep(rt *rapid.T, clientSide bool, slow int) (s step) {
 			s.TsOff = rapid.SampledFrom(tsOffsets).Draw(rt, "tsoff")
 		}
 		if clientSide {
-			// -1: current genuine session, -2: the genuine session before it, 3: harness-only session, 4: session id 0
-			s.Sess = rapid.SampledFrom([]int{-1, -1, -1, -1, -1, -1, -2, -2, -2, 0, 1, 2, 3, 4}).Draw(rt, "sess")
+			// -1: current genuine session, -2: the genuine session before it, 0..3 genuine, 4: harness-only session, 5: session id 0
+			s.Sess = rapid.SampledFrom([]int{-1, -1, -1, -1, -1, -1, -2, -2, -2, 0, 1, 2, 3, 4, 5}).Draw(rt, "sess")
 		}
 	case w < 97 || !clientSide:
 		s.Op = opAdvance
